@@ -126,7 +126,9 @@ def rand_value(rng, depth=0, kinds=None):
     if k == 'complex':
         return vcomplex(rng.choice([0.0, 1.0, -1.0, 0.5, 2.0 ** 60, 2.0]), rng.choice([0.0, 0.0, 1.0, -2.0, 0.5]))
     if k == 'bool': return vbool(rng.random() < 0.5)
-    if k == 'str': return vstr(rng.choice(["", "a", "ab", "0", "1", "가", "😀", "True", "Nil"]))
+    # (strings are sequences of code points: canonically equivalent but different spellings are different strings)
+    if k == 'str': return vstr(rng.choice(["", "a", "ab", "0", "1", "가", "😀", "True", "Nil", "\u1100\u1161", "\u00e9", "e\u0301", "\u212b", "\u00c5",
+                                           "A\u030a", "\uf900", "\u8c48", " ", "a ", "A"]))
     if k == 'bytes': return vbytes(rng.choice([b"", b"a", b"ab", b"\x00", b"0"]))
     if k == 'nil': return vnil()
     if k == 'list': return vlist([rand_value(rng, depth + 1, kinds) for _ in range(rng.randint(0, 3))])
